@@ -88,6 +88,11 @@ def gen_colours(m, rng, job):
             for hexa in ('', 'x', 'X'):
                 run(m, {'op': 'scrub', 'leaves': [{'k': 'rgbs', 'v': '%srgb(%s)' % (pre, fmtnum(v, hexa))}]}, oplist)
         for v in vals:
+            if pre == '':
+                # the generic helpers with an explicit component, American and British spelling
+                for ck in COMP_KW:
+                    for api in ('color256', 'colour256'):
+                        run(m, {'op': 'scrub', 'leaves': [{'k': 'rgbc', 'fn': 'c256', 'comp': ck, 'args': [v], 'api': api, 'comp_kw': COMP_KW[ck]}]}, oplist)
             run(m, {'op': 'scrub', 'leaves': [{'k': 'rgbc', 'fn': 'c256', 'comp': comp, 'args': [v], 'api': api_c}]}, oplist)
             run(m, {'op': 'scrub', 'leaves': [{'k': 'rgbc', 'fn': 'c256', 'comp': comp, 'args': [v], 'api': api_c.replace('color', 'colour')}]}, oplist)
             for word in ('color', 'colour'):
